@@ -154,6 +154,14 @@ theorem matchCore_gate_sound_none (ctx : RCtx) (fuel : Nat) (core : RuleCore)
     ∃ e, matchCore ctx fuel core n env = .ok (none, e) :=
   matchCore_gate_none ctx fuel core n env env' h
 
+/-- … in fact the result is *the same* (node and environment, success or failure): the core
+works on a scratch copy of the caller's environment and hands the caller's back on failure -/
+theorem matchCore_gate_exact (ctx : RCtx) (fuel : Nat) (core : RuleCore)
+    (hc : CoreKindsSound ctx core) (n : Tree) (env : Env) (v : Option Tree × Env)
+    (h : matchCore ctx fuel { core with kinds := none } n env = .ok v) :
+    matchCore ctx fuel core n env = .ok v :=
+  AGV.matchCore_gate_exact ctx fuel core hc n env v h
+
 /-- … and the gate invents nothing (no hypothesis) -/
 theorem matchCore_gate_invents_nothing (ctx : RCtx) (fuel : Nat) (core : RuleCore)
     (n : Tree) (env : Env) (m : Tree) (env' : Env)
